@@ -317,6 +317,10 @@ pub struct World {
     /// gc ids of objects whose handles are stored as VALUES (candidates of a `sel:` function): values holding
     /// handles are counted references no tracer reports (known-finding class K5), so they are not audited
     value_held: std::collections::HashSet<u32>,
+    /// gc ids of objects captured by user functions (keep:), and whether the script uses Lazy values: an unforced thunk of a
+    /// mapped / lifted cell shares the user function, so a Lazy the harness holds may own captured handles it cannot count
+    kept_ids: std::collections::HashSet<u32>,
+    lazy_seen: bool,
 }
 
 impl World {
@@ -335,6 +339,8 @@ impl World {
             heap_dump: Mutex::new(String::new()),
             killers: HashMap::new(),
             value_held: std::collections::HashSet::new(),
+            kept_ids: std::collections::HashSet::new(),
+            lazy_seen: false,
         }
     }
 
@@ -623,7 +629,7 @@ impl World {
             let g = &seen[&id];
             let sn = g.verif_snapshot();
             let e = ext.get(&id).map(|x| x.0).unwrap_or(0);
-            if self.value_held.contains(&id) {
+            if self.value_held.contains(&id) || (self.lazy_seen && self.kept_ids.contains(&id)) {
                 continue;
             }
             let want = e + in_edges.get(&id).cloned().unwrap_or(0) + extra_in.get(&id).cloned().unwrap_or(0)
@@ -678,6 +684,12 @@ impl World {
         let mut w: Vec<&str> = line.split_whitespace().collect();
         // a trailing "keep:X,Y": the user function of this primitive captures handles of slots X, Y (without reading
         // them) and declares them as dependencies (lambdaN(f, deps)): they must be kept alive, traced once each
+        if matches!(
+            w.first().copied(),
+            Some("hold_lazy" | "accum_lazy" | "collect_lazy" | "sample_lazy" | "clone_lazy" | "lazy_new" | "force")
+        ) {
+            self.lazy_seen = true;
+        }
         let mut kept: Vec<Kept> = Vec::new();
         let mut kdeps: Vec<Dep> = Vec::new();
         if let Some(k) = w.last().and_then(|t| t.strip_prefix("keep:")) {
@@ -686,11 +698,13 @@ impl World {
                 match self.objs.get(&h) {
                     Some(Obj::Cell(_)) | Some(Obj::CSink(_)) | Some(Obj::CLoop(_)) => {
                         let c = self.cell(h);
+                        self.kept_ids.insert(c.impl_.node.gc_node.verif_id());
                         kdeps.push(c.to_dep());
                         kept.push(Kept::C(c));
                     }
                     _ => {
                         let st = self.stream(h);
+                        self.kept_ids.insert(st.impl_.node.gc_node.verif_id());
                         kdeps.push(st.to_dep());
                         kept.push(Kept::S(st));
                     }
@@ -1122,6 +1136,10 @@ impl World {
             }
             "listen_c" => {
                 let l = self.cell(n(2)).listen(self.listen_closure(n(1)));
+                self.listeners.insert(n(1), l);
+            }
+            "listen_cw" => {
+                let l = self.cell(n(2)).listen_weak(self.listen_closure(n(1)));
                 self.listeners.insert(n(1), l);
             }
             "unlisten" => {
